@@ -139,6 +139,11 @@ func messageProblem(p *world.QuoteParts) string {
 }
 
 func c09(x *mon.Ctx) {
+	if !x.Quick() {
+		defer func() {
+			x.Fuzz("FuzzParse", 3000000)
+		}()
+	}
 	x.Level = "exploration"
 	x.Rule = "byte strings: every truncation length of valid quotes, every boundary value of each of the 9 size/type fields and their pairs, consistent re-sizes +-1, trailing bytes 1..64, random mutation, degenerate inputs; oracle = independent reference parser/serialiser written from the v4 layout (same acceptance set, every field equal, serialise(parse(b)) == b, exported part serialisers equal the corresponding slices). Messages: well-formed messages built field-by-field with position-dependent contents (auth data 0..65535, chain 0..8 KiB, extra bytes) must serialise to the reference bytes and parse back proto.Equal. Non-trivial = library and reference both accepted (full field comparison ran) or the input was rejected by both for a size/type reason; distinct = distinct labelled input."
 	x.Assume = []string{"the reference layout table (offsets from Intel's TDX DCAP quote v4 specification; PCE SVN at offset 8 and QE SVN at offset 10 as the repository documents)", "google.golang.org/protobuf proto.Equal"}
